@@ -172,7 +172,7 @@ class C08(SessionProperty):
         return session.oracle_c08(case["doc"], case["ops"], steps)
 
 
-from . import clisim, damage, fsworld, laws, mapping  # noqa: E402
+from . import c15, clisim, damage, fsworld, laws, mapping  # noqa: E402
 
 PROPERTIES: dict = {
     "C04": C04("C04", scoped_bias=0.2, fail=False),
@@ -181,6 +181,7 @@ PROPERTIES: dict = {
     "C08": C08("C08", scoped_bias=0.2, fail=True),
     "C14": mapping.MappingProperty(),
     "C07": damage.DamageProperty(),
+    "C15": c15.C15Property(),
     "C16": clisim.CliProperty(),
     "C17": fsworld.FsProperty(),
     "C19": laws.LawsProperty(),
